@@ -22,7 +22,8 @@ RULE = (
 RULE += (
     " One program in ten is a 'revisit' program (a task reached twice in one traversal, unblocked in between by "
     "a sibling's item.value()); a fifth have flush bodies that call asynq synchronously, a quarter cancel a "
-    "pending batch by hand."
+    "pending batch by hand. Deep shape chain_known: 25000 links each yielding the next link, one request and "
+    "48 already computed futures (one flush; no RuntimeError)."
 )
 ASSUMPTIONS = [
     "termination (a liveness claim) is restated as bounded progress: exact step counts plus a generous watchdog",
